@@ -98,7 +98,7 @@ func (*c07) Execute(ci any) any {
 	for i, s := range h.Steps {
 		if i == c.Test {
 			o.Before = r.Srv.Snapshot()
-			o.LedgB = c06Ledger(r.Inner)
+			o.LedgB = c07Ledger(r.Inner)
 		}
 		switch {
 		case s.Op != nil:
@@ -122,7 +122,7 @@ func (*c07) Execute(ci any) any {
 			} else {
 				r.Srv.Remove(s.Edit.Del)
 			}
-			o.Obs.Steps = append(o.Obs.Steps, eng.StepObs{Outcome: "ok", Ledger: c06Ledger(r.Inner), Objs: r.Srv.Snapshot()})
+			o.Obs.Steps = append(o.Obs.Steps, eng.StepObs{Outcome: "ok", Ledger: c07Ledger(r.Inner), Objs: r.Srv.Snapshot()})
 		}
 	}
 	o.Stamps = c07RunStamps(c)
@@ -286,6 +286,8 @@ func (*c07) Oracle(ci, oi any) []hx.Violation {
 	// 5. stamping forces the three ownership values (every operation of the history, and the
 	//    direct runs of setMetadataVisitor)
 	c07StampOracle(c, o, add)
+	// 6. request level: every resource to be newly created is looked up before the first mutating request
+	c07PreflightOracle(c, o, add)
 	return vs
 }
 
@@ -303,7 +305,7 @@ var c07Abbrev = strings.NewReplacer(
 
 func (*c07) CoqCase(ci, oi any) string {
 	o := oi.(c07Obs)
-	return c07Abbrev.Replace(fmt.Sprintf("mkC7 (%s)\n  %s", eng.CoqCase(ci.(c07Case).H, o.Obs), c07CoqStamps(o.Stamps)))
+	return c07Abbrev.Replace(fmt.Sprintf("mkC7 (%s)\n  %s\n  %s", eng.CoqCase(ci.(c07Case).H, o.Obs), c07CoqStamps(o.Stamps), c07CoqLogs(ci.(c07Case), o)))
 }
 
 func (*c07) Class(ci, oi any) string {
